@@ -11,6 +11,10 @@ if [ ! -x bin/bblint ] || [ -n "$(find tool/cmd -newer bin/bblint -name '*.go' 2
 fi
 mkdir -p evidence
 if [ "$tier" = thorough ] && [ -x ./selftest.sh ]; then
-  ./selftest.sh "$id" || { echo "VIOLATION property=$id replay=/verif/mutants rule=selftest detail=checker self-test failed (a stored mutant was not detected or a benign variant raised an alarm)"; exit 1; }
+  export SELFTEST_OUT="/tmp/bblint_selftest_$id.$$.json"
+  ./selftest.sh "$id" > "/tmp/bblint_selftest_$id.$$.log" 2>&1 || { cat "/tmp/bblint_selftest_$id.$$.log" | grep -v '^ok' | head -20; echo "VIOLATION property=$id replay=/verif/mutants rule=selftest detail=checker self-test failed (a stored mutant was not detected or a benign variant raised an alarm)"; exit 1; }
 fi
-exec bin/bblint -repo "$REPO" -property "$id" -tier "$tier" -evidence "evidence/$id.json" -known known_findings.json
+bin/bblint -repo "$REPO" -property "$id" -tier "$tier" -evidence "evidence/$id.json" -known known_findings.json
+rc=$?
+rm -f "/tmp/bblint_selftest_$id.$$.json" "/tmp/bblint_selftest_$id.$$.log"
+exit $rc
